@@ -13,6 +13,7 @@ import numpy
 
 from cv import consts, fillspec
 from cv.core import MachineryError
+from cv.polyeval import evaluate
 from cv.synth import KEYS21, ORTHO9, eulerian
 from cv.tlaparse import printed_values
 from cv.tlc import run_tlc, must_ok
@@ -142,6 +143,7 @@ def main(ctx, replay=None):
     nsamp = 0
     try:
         prev_d = None
+        vrh_forms = must_ok(run_tlc("C07", None, ctx.subdir("tlc_c07"), workers=1, timeout=300)).load("c07_forms.json")
         forced_systems = ["tetragonal7", "trigonal7", "trigonal6"]
         for pn, (_, mode, has_table, with_sys, with_mass, ntv, has_density, rowrule, sample, stride, nrows_spec) in enumerate(picks):
             system = str(rng.choice(["hexagonal", "cubic", "tetragonal6", "orthorhombic", "trigonal6", "tetragonal7", "trigonal7"])) if with_sys else None
@@ -244,6 +246,28 @@ def main(ctx, replay=None):
                     if not numpy.allclose(col["c%d%d" % k], me, rtol=5e-6, atol=5e-5):
                         bad = f"c{k[0]}{k[1]}[0] = {col['c%d%d' % k][0]}, the finite-strain fit of the static table gives {me[0]}"
                         break
+            if bad is None and has_table:
+                # the row's Voigt and Reuss averages are those of the row's own moduli: the contractions exported by C07.tla (linear forms
+                # of the stiffness and of its inverse) evaluated on the printed c_ij, wherever the printed stiffness is positive definite
+                Cm = numpy.zeros((rows.shape[0], 6, 6))
+                for (a, b) in KEYS21:
+                    if "c%d%d" % (a, b) in col:
+                        Cm[:, a - 1, b - 1] = Cm[:, b - 1, a - 1] = col["c%d%d" % (a, b)]
+                pdrow = numpy.all(numpy.linalg.eigvalsh(Cm) > 1e-3, axis=-1) & (numpy.linalg.cond(Cm) < 1e6)
+                if numpy.any(pdrow):
+                    Sm = numpy.zeros_like(Cm)
+                    Sm[pdrow] = numpy.linalg.inv(Cm[pdrow])
+                    catoms = {"c%d%d" % k: Cm[:, k[0] - 1, k[1] - 1] for k in KEYS21}
+                    satoms = {"s%d%d" % k: Sm[:, k[0] - 1, k[1] - 1] for k in KEYS21}
+                    with numpy.errstate(all="ignore"):
+                        expv = {"bm_V": evaluate(vrh_forms["kv"], catoms), "G_V": evaluate(vrh_forms["gv"], catoms),
+                                "bm_R": 1.0 / evaluate(vrh_forms["kr_den"], satoms), "G_R": 1.0 / evaluate(vrh_forms["gr_den"], satoms)}
+                    for nm, ev in expv.items():
+                        # (six printed digits of every c_ij; the inverse amplifies them by the condition number, bounded above)
+                        if nm in col and not numpy.allclose(col[nm][pdrow], numpy.asarray(ev)[pdrow], rtol=2e-3 if nm.endswith("_R") else 2e-5, atol=1e-4):
+                            j = int(numpy.argmax(numpy.abs(col[nm][pdrow] - numpy.asarray(ev)[pdrow])))
+                            bad = f"{nm} = {col[nm][pdrow][j]} in a row whose printed moduli give {numpy.asarray(ev)[pdrow][j]}"
+                            break
             if bad is None and has_table:
                 okrow = numpy.isfinite(col["v_phi"]) & (col["bm_VRH"] > 0)
                 if not numpy.allclose((col["density"] * col["v_phi"] ** 2)[okrow], col["bm_VRH"][okrow], rtol=2e-5):
